@@ -3,6 +3,8 @@
 which property they break, what they need to manifest, how they were confirmed and which checks catch them."""
 import json, os, re, shutil, glob, sys
 SRC = sys.argv[1] if len(sys.argv) > 1 else '/tmp/mut'
+TAG = sys.argv[2] if len(sys.argv) > 2 else ''   # e.g. 'r2' for the second round
+BASE = sys.argv[3] if len(sys.argv) > 3 else 'the pinned commit df1ae8b'
 DST = '/verif/seeded'
 matrix = {}
 for log in sorted(glob.glob(os.path.join(SRC, 'matrix*.log'))):  # later files override earlier entries
@@ -22,7 +24,7 @@ for d in sorted(glob.glob(os.path.join(SRC, 'C*', 'm*'))):
     confirmed = os.path.exists(conf) and 'CONFIRMED ' + prop + '/' + m in open(conf).read()
     if not confirmed:
         print('skip (not confirmed):', d); continue
-    out = os.path.join(DST, prop + '-' + m)
+    out = os.path.join(DST, prop + '-' + (TAG + '-' if TAG else '') + m)
     os.makedirs(out, exist_ok=True)
     for f in os.listdir(d):
         if f.endswith('.diff') or f.endswith('_test.go') or f == 'notes.md' or f.endswith('.go'):
@@ -36,10 +38,10 @@ for d in sorted(glob.glob(os.path.join(SRC, 'C*', 'm*'))):
     meta = {
         'property': prop,
         'note': NEUTRAL.get(prop + '-' + m, ''),
-        'origin': 'independent sub-agent given only the property text and a scratch worktree of the pinned commit',
-        'patch': 'patch.diff (against the pinned commit df1ae8b)' + ('; patch.ported.diff (hand-ported to the repaired tree, same mechanism)' if os.path.exists(os.path.join(d, 'patch.ported.diff')) else ''),
+        'origin': 'independent sub-agent given only the property text and a scratch worktree of ' + BASE,
+        'patch': 'patch.diff (against ' + BASE + ')' + ('; patch.ported.diff (hand-ported to the repaired tree, same mechanism)' if os.path.exists(os.path.join(d, 'patch.ported.diff')) else ''),
         'needs_to_manifest': needs or 'see notes.md',
-        'confirmed_by': 'tools/confirm_mutant.sh %s %s : patch applies to the pinned commit, go build ok, full suite passes with the patch, demo fails with the patch and passes without it' % (prop, m),
+        'confirmed_by': 'tools/confirm_mutant.sh %s %s : patch applies to its base, go build ok, full suite passes with the patch, demo fails with the patch and passes without it' % (prop, m),
         'checks_run': matrix.get(prop + '/' + m, {}),
     }
     json.dump(meta, open(os.path.join(out, 'meta.json'), 'w'), indent=1)
